@@ -192,7 +192,7 @@ def parse_model_output(lines):
             res['CU:' + p[1]] = [x == '1' for x in p[2:5]]
         elif ln.startswith('C '):
             p = ln.split()
-            res['C:' + p[1]] = [x == '1' for x in p[2:9]]
+            res['C:' + p[1]] = [x == '1' for x in p[2:10]]
         elif ln.startswith('GB '):
             p = ln.split()
             res['GB:' + p[1]] = [x == '1' for x in p[2:11]]
